@@ -425,7 +425,7 @@ def run_shard(sh):
                 if not has_set:
                     # (a commented set element is hashed by identity: the commented and the stripped set iterate differently, so a cut keeps
                     #  different elements)
-                    choices += [{'max_seq_len': rng.choice([0, 1, 2, 3])}]
+                    choices += [{'max_seq_len': rng.choice([1, 2, 3])}]
                 if not keys_commented:
                     # (a commented str dict key is cut like any value while a bare one stays visible - the listed C11 finding - so with commented
                     #  keys the two outputs differ for a reason that is not the comment's doing)
